@@ -206,7 +206,7 @@ class TValid:
         for o, rt in zip(outs, rets):
           exp.extend(np.asarray(o[c], dtype=np.float64).reshape(-1).tolist())
         # flatten model return
-        call = f"(@{coqname} float Sc " + " ".join(args) + ")"
+        call = f"({coqname} " + " ".join(args) + ")"
         if len(rets) == 1:
           flat = self._flat("r", rets[0])
           term = f"(let r := {call} in {flat})"
